@@ -9,6 +9,7 @@
 -/
 import Proofs.Lemmas.StreamingAlgs
 import Proofs.Lemmas.StreamingBitlen
+import Proofs.Lemmas.MultiProj
 namespace Proofs.C14
 open Model Proofs.Lemmas.Parse Proofs.Lemmas.Compose Proofs.Lemmas.Streaming Proofs.Lemmas.EndToEnd
 
@@ -126,6 +127,31 @@ theorem update_pieces_bitlen {σ : Type} {c : HashCore} {h : Spec.MDHash σ} {em
     `self.H = …; self.padmethod = XXpadding(…)` — and the `… | init | …` lines of the stream tie it to the code.) -/
 theorem initstate_forgets (c : HashCore) :
     c.initstate.pad = { padflag := false, bitcnt := 0, padcnt := 0 } ∧ c.initstate.H = c.iv := ⟨rfl, rfl⟩
+
+/-- **call_forgets_history**: the one-shot call `h(M,bitlen)` does not look at the object it is called on (it starts with
+    `initstate()`): the digest AND the object left behind are those of a fresh object, whatever was fed, finished, called
+    or refused before (the `… | call … | init | …` lives of the `hashseq` lines, the `<k> call` steps of `hashseqs`) -/
+theorem call_forgets_history (c : HashCore) (o o' : HashObj) (M : List Nat) (bitlen : Option Nat) :
+    c.call o M bitlen = c.call o' M bitlen := rfl
+
+/-- **siblings_do_not_interfere** (the `hashseqs` / `blakeseqs` / `nilsimsa.seqs` lines): several objects alive at the same
+    time are entries of a list, a step on object k rewrites entry k (`Model.Multi.run`, used by the three drivers with their
+    own `step`).  For EVERY step function, every interleaving of steps and every object j of the store: the state of
+    object j after the whole line and everything printed for object j are those of the run of j's OWN steps alone, in
+    their order — no other object's construction, initialisation, feeding, finishing or refusal, and no step addressed to
+    the environment slot, enters.  So in the model two objects cannot share a bit counter, a padding object, a salt or a
+    window by construction; `update_pieces`, `update_pieces_bitlen`, `bitcnt_after_pieces` therefore hold for each stream of
+    an interleaved line.  That the Python objects are as independent is what the correspondence lines test. -/
+theorem siblings_do_not_interfere {σ ω ρ : Type} (step : Nat → σ → ω → σ × ρ) (objs : List σ)
+    (steps : List (Nat × ω)) (j : Nat) (o : σ) (hj : objs[j]? = some o) :
+    (Model.Multi.run step objs steps).1[j]? = some (Model.Multi.runOne (step j) o (Model.Multi.own j steps)).1 ∧
+    ((Model.Multi.run step objs steps).2.filter (·.1 == j)).map (·.2)
+      = (Model.Multi.runOne (step j) o (Model.Multi.own j steps)).2 :=
+  Proofs.Lemmas.MultiProj.run_proj step j steps objs o hj
+
+/-- non-vacuity: two counters stepped alternately; object 1 sees only its own two steps -/
+example : (Model.Multi.run (fun _ (n : Nat) (d : Nat) => (n + d, n + d)) [0, 100] [(0, 1), (1, 5), (0, 2), (1, 7)]).2
+    = [(0, 1), (1, 105), (0, 3), (1, 112)] := by decide
 
 /-! non-vacuity: block-aligned cuts exist with empty and multi-block pieces -/
 example : ∃ (pieces : List (List Spec.Byte)), (∀ P ∈ pieces, P.length % 64 = 0) ∧ pieces.length = 3 ∧
